@@ -227,6 +227,12 @@ class Evaluator:
             return "int"
         if h == "mut":
             return self.typeof(t[1])
+        if h == "meth" and t[2] in ("pop",) and not t[3]:
+            rt = self.typeof(t[1])
+            if isinstance(rt, tuple) and rt and rt[0] in ("set", "frozenset", "list") and len(rt) > 1:
+                return rt[1]
+        if h == "orelse":
+            return self.typeof(t[1]) or self.typeof(t[2])
         return None
 
     def cls_of(self, t: Term) -> Cls | None:
@@ -335,7 +341,7 @@ class Evaluator:
                 self.assign(st.target, v, s2, func)
                 if isinstance(st.target, ast.Name):
                     typ = self.parse_ann(func.module, st.annotation)
-                    if typ is not None and v not in self.types and v[0] in ("var", "call", "meth", "attr"):
+                    if typ is not None and v not in self.types and v[0] not in ("const", "rec", "listlit", "tuplelit", "setlit", "dictlit", "empty"):
                         self.set_type(v, typ)
                 outs.append((s2, "fall", None, line))
             return outs
